@@ -115,7 +115,7 @@ func (r *runner) runMixed(schemeIdx int) {
 		alphabet := "VVVPNUXF"
 		sizes := []int{}
 		for n := 2; n <= 17; n++ {
-			if r.o.Tier == "thorough" || (n+schemeIdx)%2 == 0 {
+			if r.o.Tier == "thorough" || (n+schemeIdx)%3 == 0 {
 				sizes = append(sizes, n)
 			}
 		}
@@ -141,7 +141,7 @@ func (r *runner) runMixed(schemeIdx int) {
 				patterns = append(patterns, string(b))
 			}
 		}
-		for _, pat := range patterns {
+		for pi, pat := range patterns {
 			var items []item
 			var block [][]byte
 			for i := 0; i < len(pat); i++ {
@@ -160,18 +160,34 @@ func (r *runner) runMixed(schemeIdx int) {
 			var senders [][]byte
 			var berr lib.ErrorI
 			var ownAfter uint64
+			t0 := timed("mixed-first-apply")
 			w.inTxn(func() {
 				errs, senders, berr = r.applyBlock(block)
 				if a, e := w.sm.GetAccount(crypto.NewAddress(P["own"].addr)); e == nil {
 					ownAfter = a.Amount
 				}
 			})
+			t0()
 			replay := map[string]any{"case": r.o.CurCase(), "pattern": pat, "block": hexAll(block), "path": "batch",
 				"legend": "V valid bystander send; P fee below minimum; N other chain id; U valid signature of an unauthorized key; X the same with a junk signature; F amount changed after signing (victim's key, signature does not fit)"}
 			if berr != nil {
 				r.honestBlockRefused("pattern "+pat, berr, block)
 				r.o.Op("tx mixed:"+pat+":block - - - -", "block-refused:"+errStr(berr))
 				continue
+			}
+			// the same block a second time, caches left as the first pass left them
+			var errs2 []lib.ErrorI
+			if r.o.Tier == "thorough" || r.sc == "ed25519" || pi%3 == 0 {
+				func() {
+					defer timed("mixed-second-apply")()
+					w.inTxn(func() { errs2, _, _ = r.applyBlock(block) })
+				}()
+			}
+			for i := range items {
+				if errs2 != nil && errs[i] != nil && errs2[i] == nil {
+					r.fail("C05:unauthorized-state-change:accepted-on-second-presentation", fmt.Sprintf("%s mixed:%s:p%d: a transaction (kind %c) refused with %s in its block was EXECUTED when the identical block was applied again in the same process with the caches left alone",
+						r.o.CurCase(), pat, i, items[i].kind, errStr(errs[i])), replay)
+				}
 			}
 			ownBefore := r.base.accts[string(P["own"].addr)].Amount
 			batchIdx := 0
